@@ -212,9 +212,14 @@ def coq_props(prop_dir, extra_files=()):
             res['failing'] += bad
         return res
     # Print Assumptions: rerun coqc on Props.v alone, capturing stdout
-    with Lock('coq'):
-        p = sh(['coqc', '-Q', '.', 'CppcmsV', '-w', '-notation-overridden,-deprecated,-ambiguous-paths',
-                os.path.join(prop_dir, 'Props.v')], cwd=COQ, timeout=600, mem=COQ_MEM_LIMIT)
+    # (output goes to a scratch .vo, so this pass reads the project but writes nothing into it: no project lock needed;
+    #  a concurrent make of another property does not touch the files Props.v depends on)
+    pa_dir = os.path.join(WORK, 'pa', prop_dir, str(os.getpid()))
+    os.makedirs(pa_dir, exist_ok=True)
+    p = sh(['coqc', '-Q', '.', 'CppcmsV', '-w', '-notation-overridden,-deprecated,-ambiguous-paths',
+            '-o', os.path.join(pa_dir, 'Props.vo'),
+            os.path.join(prop_dir, 'Props.v')], cwd=COQ, timeout=600, mem=COQ_MEM_LIMIT)
+    shutil.rmtree(pa_dir, ignore_errors=True)
     out = p.stdout.decode(errors='replace')
     if p.returncode != 0:
         res['failing'] = ['Props.v recompile failed']
